@@ -69,6 +69,8 @@ def random_script(rng, level, size, skip, mx, n):
             steps.append({"a": "tick"})
             steps.append({"a": "tick"})
     steps.append({"a": "tick"})
+    if level == "icpt" and rng.random() < 0.5:          # the RTCP writer refuses the writes of some ticks
+        steps = [dict(st, wfail=True) if st["a"] == "tick" and rng.random() < 0.2 else st for st in steps]
     sc = {"level": level, "size": size, "skip": skip, "max": mx, "steps": steps}
     if level == "icpt" and rng.random() < 0.3:          # GeneratorStreamsFilter replaces the default feedback-list test
         sc["filt"] = rng.choice(["all", "odd", "none"])
